@@ -174,14 +174,8 @@ func describeByte(fn *ssa.Function, p CPath, v ssa.Value) string {
 		return x != stripConv(x) && isLoadOf(stripConv(x), "MaxPrivilegeLevel")
 	}
 	lookup := -1 // value of PrivilegeLevelLookup on this path
-	for k, b := range p.Blocks {
-		if k+1 >= len(p.Blocks) {
-			break
-		}
-		ifi, ok := b.Instrs[len(b.Instrs)-1].(*ssa.If)
-		if !ok {
-			continue
-		}
+	for _, tk := range p.Ifs() {
+		ifi := tk.If
 		cond := ifi.Cond
 		neg := false
 		for {
@@ -193,7 +187,7 @@ func describeByte(fn *ssa.Function, p CPath, v ssa.Value) string {
 			break
 		}
 		if isLoadOf(cond, "PrivilegeLevelLookup") {
-			arm := p.Blocks[k+1] == b.Succs[0]
+			arm := tk.Arm
 			if neg {
 				arm = !arm
 			}
@@ -337,7 +331,8 @@ func checkC01(c *Ctx, r *Report) {
 		r.Lost("ipmi.RAKPMessage1.SerializeTo")
 	} else {
 		r.Fn(c.FnName(ser))
-		r.Check(roleByteWire(ser), c.FnName(ser)+"|d[24]", ser.Pos(), "d[24] = level&0xF, |= 0x10 iff !PrivilegeLevelLookup", "byte 24 of RAKP Message 1 is not level&0xF | (name-only?0x10:0)")
+		okRole, whyRole := roleByteWire(c, ser)
+		r.Check(okRole, c.FnName(ser)+"|d[24]", ser.Pos(), "d[24] = level&0xF, |= 0x10 iff !PrivilegeLevelLookup", "byte 24 of RAKP Message 1 is not level&0xF | (name-only?0x10:0): "+whyRole)
 	}
 
 	// ---- (3) key wiring
@@ -354,73 +349,41 @@ func ifs(b bool, s string) string {
 	return ""
 }
 
-// roleByteWire checks the stores to d[24] in RAKPMessage1.SerializeTo.
-func roleByteWire(fn *ssa.Function) bool {
-	recv := fn.Params[0]
-	okBase, okOr := false, false
-	var lookupIf *ssa.If
-	for _, ifi := range ifsOf(fn) {
-		cond := ifi.Cond
-		for {
-			if u, ok := cond.(*ssa.UnOp); ok && u.Op == token.NOT {
-				cond = u.X
-				continue
-			}
-			break
-		}
-		if fieldLoadOf(cond, recv, "PrivilegeLevelLookup") {
-			lookupIf = ifi
-		}
+// roleByteWire decides byte 24 of RAKPMessage1.SerializeTo on bit provenance
+// (engine E2): on every success path the byte is the low nibble of
+// MaxPrivilegeLevel with bit 4 set exactly when PrivilegeLevelLookup is false,
+// however the serialiser is factored into helpers.
+func roleByteWire(c *Ctx, fn *ssa.Function) (bool, string) {
+	evs, why := extractEvents(c, fn, nil)
+	if why != "" {
+		return false, why
 	}
-	if lookupIf == nil {
-		return false
+	n := 0
+	for _, le := range evs {
+		if !le.OK {
+			continue
+		}
+		got, has := le.lastWrites("wire")["pre[24]"]
+		if !has {
+			return false, "a success path does not write byte 24"
+		}
+		lookup, decided := le.Bools["PrivilegeLevelLookup"]
+		if !decided {
+			return false, "byte 24 is " + got + " on a path that does not depend on PrivilegeLevelLookup"
+		}
+		want := "{0b1,f:MaxPrivilegeLevel[3:0]}"
+		if lookup {
+			want = "f:MaxPrivilegeLevel[3:0]"
+		}
+		if got != want {
+			return false, fmt.Sprintf("byte 24 is %s when PrivilegeLevelLookup=%v, want %s", got, lookup, want)
+		}
+		n++
 	}
-	allInstrs(fn, false, func(in ssa.Instruction) {
-		st, ok := in.(*ssa.Store)
-		if !ok {
-			return
-		}
-		ia, ok := st.Addr.(*ssa.IndexAddr)
-		if !ok {
-			return
-		}
-		k, isK := constInt(ia.Index)
-		if !isK || k != 24 {
-			return
-		}
-		if bo, ok := st.Val.(*ssa.BinOp); ok {
-			switch bo.Op {
-			case token.AND:
-				if m, isM := constInt(bo.Y); isM && m == 0xF {
-					if fieldLoadOf(stripConv(bo.X), recv, "MaxPrivilegeLevel") {
-						okBase = true
-					}
-				}
-			case token.OR:
-				if m, isM := constInt(bo.Y); isM && m == 16 {
-					// must be on the !lookup arm
-					cond := lookupIf.Cond
-					neg := false
-					for {
-						if u, ok := cond.(*ssa.UnOp); ok && u.Op == token.NOT {
-							neg = !neg
-							cond = u.X
-							continue
-						}
-						break
-					}
-					falseArm := lookupIf.Block().Succs[1]
-					if neg {
-						falseArm = lookupIf.Block().Succs[0]
-					}
-					if st.Block() == falseArm {
-						okOr = true
-					}
-				}
-			}
-		}
-	})
-	return okBase && okOr
+	if n == 0 {
+		return false, "no success path"
+	}
+	return true, ""
 }
 
 // ---------------------------------------------------------------- key wiring
@@ -797,7 +760,7 @@ func checkAlgorithmTables(c *Ctx, r *Report) {
 	}
 
 	// truncatedHash.Sum: t.Hash.Sum(b)[:len(b)+t.length]
-	th := c.Named("", "truncatedHash")
+	th := c.truncatedHashType()
 	if th == nil {
 		r.Lost("truncatedHash")
 	} else if sum := c.MethodOf(th, "Sum"); sum != nil {
@@ -828,7 +791,7 @@ func checkAlgorithmTables(c *Ctx, r *Report) {
 	}
 
 	// K(n): 20 copies of byte(n) hashed with the generator's hash
-	akm := c.Named("", "additionalKeyMaterialGenerator")
+	akm := c.keyMaterialType()
 	if akm == nil {
 		r.Lost("additionalKeyMaterialGenerator")
 		return
